@@ -19,6 +19,7 @@ Runtime service facility.
 """
 import asyncio
 import logging
+import threading
 import typing
 import uuid
 from concurrent import futures
@@ -170,6 +171,7 @@ class Wrapper:
         self._processes: Wrapper.Executor = self.Executor(futures.ProcessPoolExecutor(max_workers), loop)
         self._threads: Wrapper.Executor = self.Executor(futures.ThreadPoolExecutor(max_workers), loop)
         self._descriptors: dict[str, typing.Optional['appmod.Descriptor']] = {}
+        self._lock: threading.Lock = threading.Lock()
 
     def _get_descriptor(self, application: str) -> 'appmod.Descriptor':
         """Get the application descriptor.
@@ -180,11 +182,12 @@ class Wrapper:
         Returns:
             Application descriptor.
         """
-        if application not in self._descriptors:
-            updates = set(self._inventory.list()).difference(self._descriptors)
-            self._descriptors.update({a: None for a in updates})
-            if application not in updates:
-                raise forml.MissingError(f'Application {application} not found in {self._registry}')
+        with self._lock:  # the check/list/update sequence must not interleave between the pool threads
+            if application not in self._descriptors:
+                updates = set(self._inventory.list()).difference(self._descriptors)
+                self._descriptors.update({a: None for a in updates})
+                if application not in updates:
+                    raise forml.MissingError(f'Application {application} not found in {self._registry}')
         if not self._descriptors[application]:
             self._descriptors[application] = self._inventory.get(application)
         return self._descriptors[application]
